@@ -296,7 +296,7 @@ def identity_cases():
 
 
 def run(ctx):
-    ctx.check_proofs(["MPilot.Props.C09"])
+    ctx.check_proofs(["MPilot.Props.C09", "MPilot.Props.C09Hist"])
     model = common.Model()
 
     alias_cases = []
